@@ -165,7 +165,7 @@ def build(U):
     struct(U, 'RepeatMinMax')
     im = U.impl(F, "TypedNode<'i, R> for RepeatMinMax<Skipped<T, Skip, SKIP>, MIN, MAX>").drop_attrs()
     im.keep_methods(['try_check_partial_with'])
-    im.prepend_in_block("    open spec fn sem(c: Ctx<'i>, pos: nat, st: Seq<Span<'i>>) -> Res<'i> { sem_repminmax::<R, T, Skip>(c, SKIP as nat, MIN as nat, MAX as nat, pos, st) }")
+    im.prepend_in_block(P.semdef("sem_repminmax::<R, T, Skip>(c, SKIP as nat, MIN as nat, MAX as nat, pos, st)"))
     im.attr('    #[verifier::loop_isolation(false)]')
     im.body_start('        let ghost input0 = input;')
     im.loop(1, it='it', inv=LOOP_INV % {'min': 'MIN as nat'})
@@ -184,7 +184,7 @@ def build(U):
     struct(U, 'RepeatMin')
     im = U.impl(F, "TypedNode<'i, R> for RepeatMin<Skipped<T, Skip, SKIP>, MIN>").drop_attrs()
     im.keep_methods(['try_check_partial_with'])
-    im.prepend_in_block("    open spec fn sem(c: Ctx<'i>, pos: nat, st: Seq<Span<'i>>) -> Res<'i> { sem_repmin::<R, T, Skip>(c, SKIP as nat, MIN as nat, pos, st) }")
+    im.prepend_in_block(P.semdef("sem_repmin::<R, T, Skip>(c, SKIP as nat, MIN as nat, pos, st)"))
     im.attr('    #[verifier::loop_isolation(false)]')
     im.attr('    #[verifier::exec_allows_no_decreases_clause]')
     im.body_start('        let ghost input0 = input;')
@@ -250,7 +250,7 @@ def build(U):
     U.emit(im)
     im = U.impl(F, "TypedNode<'i, R> for AtomicRepeat<T>").drop_attrs()
     im.keep_methods(['try_check_partial_with'])
-    im.prepend_in_block("    open spec fn sem(c: Ctx<'i>, pos: nat, st: Seq<Span<'i>>) -> Res<'i> { Some(sem_repmin::<R, T, NoSkip>(c, 0, 0, pos, st).unwrap()) }")
+    im.prepend_in_block(P.semdef("Some(sem_repmin::<R, T, NoSkip>(c, 0, 0, pos, st).unwrap())"))
     U.emit(im)
 
 
